@@ -186,7 +186,7 @@ EXTRA = {
     'BDspdI': {'k': 'expr', 'e': {'I': 'BDspd'}},                 # block-wise inverses
     'BDT': {'k': 'bdiagop', 'blocks': ['T4', 'D3', 'R23']},
     'BRsh': {'k': 'row', 'blocks': {'dict': {'r': 'Sh23', 'm': 'M23'}}},
-    'SumBD': {'k': 'expr', 'e': {'sum': ['BD', 'BD2', 'BDt']}},
+    'SumBD': {'k': 'expr', 'e': {'sum': ['BD', 'BD2', 'BDh']}},
     'HsI': {'k': 'expr', 'e': {'I': 'Hs'}},
 }
 
@@ -378,12 +378,12 @@ class Check(PropertyCheck):
         # 3. products (CompositionOperator has no override: generic through every operand's mv)
         ch = [c for c in chains(3, names, t) if len(c) in (2, 3)]
         rng.shuffle(ch)
-        for c in ch[: 40 if quick else 1500]:
+        for c in ch[: 30 if quick else 1500]:
             out.append({'kind': 'product', 'e': {rng.choice(['chain', 'rchain', 'comp']): c}})
         # 4. sums
         same = [(a, b) for a in names for b in names if t[a] == t[b]]
         rng.shuffle(same)
-        for a, b in same[: 40 if quick else 1200]:
+        for a, b in same[: 30 if quick else 1200]:
             c = rng.choice([n for n in names if t[n] == t[a]])
             e = rng.choice([{'add': [a, b]}, {'sum': [a, b, c]}, {'sub': [a, {'add': [b, c]}]}, {'sum': [a]}])
             out.append({'kind': 'sum', 'e': e})
@@ -392,7 +392,7 @@ class Check(PropertyCheck):
         for n in names:
             by_in.setdefault(t[n][0], []).append(n)
             by_out.setdefault(t[n][1], []).append(n)
-        nblock = 70 if quick else 1500
+        nblock = 50 if quick else 1500
         for _ in range(nblock):
             kind = rng.choice(['row', 'bdiagop', 'col'])
             k = rng.choice([1, 2, 2, 3, 3])
@@ -406,8 +406,8 @@ class Check(PropertyCheck):
         lays = all_layouts()
         self.stats['layouts_in_scope'] = len(lays)
         if quick:
-            fixed = [l for l in lays if l[0].startswith(('dict:', 'nest', 'stokes-in', 'mixed-dict')) and rng.random() < 0.08]
-            lays = fixed + rng.sample(lays, 40)
+            fixed = [l for l in lays if l[0].startswith(('dict:', 'nest', 'stokes-in', 'mixed-dict')) and rng.random() < 0.06]
+            lays = fixed + rng.sample(lays, 26)
         for tag, s in lays:
             for c in self._layout_cases(rng, tag, s, 3 if quick else 5):
                 out.append(c)
